@@ -1,4 +1,5 @@
 import Pds.Proofs.TDigestSize
+import Pds.Proofs.TDigestScaleReal
 import Mathlib.Algebra.Order.Field.Rat
 import Mathlib.Tactic.NormNum
 /-!
@@ -121,5 +122,75 @@ example : PairsExceed (2 * 4 / 4 : ℚ) [⟨3, 2⟩, ⟨7, 2⟩] := by
 example : mergeLoop (k0 (4 : ℚ)) 0 4 [⟨2, 1⟩, ⟨3, 1⟩, ⟨4, 1⟩] ⟨1, 1⟩ 0 (lim (k0 4) 0 0) []
     = [⟨3, 2⟩, ⟨7, 2⟩] := by
   norm_num [mergeLoop, k0, lim, Centroid.fuse]
+
+/-! ### any scale function: the counting argument -/
+
+/-- `ScaleOK sf n`, spelled out: on the quantile range `[0, 1]` (for the sample count `n`) `f` is
+non-decreasing, `fInv` is non-decreasing (everywhere), and `fInv (f q) = q`. -/
+theorem scaleOK_iff (sf : ScaleFn α) (n : Nat) : ScaleOK sf n ↔
+    (∀ {q q' : α}, 0 ≤ q → q ≤ q' → q' ≤ 1 → sf.f q n ≤ sf.f q' n) ∧
+    (∀ {k k' : α}, k ≤ k' → sf.fInv k n ≤ sf.fInv k' n) ∧
+    (∀ {q : α}, 0 ≤ q → q ≤ 1 → sf.fInv (sf.f q n) n = q) :=
+  ⟨fun h => ⟨h.1, h.2, h.3⟩, fun h => ⟨h.1, h.2.1, h.2.2⟩⟩
+
+/-- Under `ScaleOK`, the greedy invariant of `merge_ksize` (`fInv (f q0 + 1) < q2`, with `q2` the
+weight fraction at the right end of the adjacent pair) says that the pair spans more than 1 in
+k-space. -/
+theorem pair_span_gt_one {sf : ScaleFn α} {n : Nat} (hok : ScaleOK sf n) {q0 q2 : α}
+    (h0 : 0 ≤ q2) (h1 : q2 ≤ 1) (hl : sf.fInv (sf.f q0 n + 1) n < q2) : sf.f q0 n + 1 < sf.f q2 n :=
+  hok.span h0 h1 hl
+
+/-- `reachable_ksize` with the sample count made explicit: what a read sees is empty or greedy
+w.r.t. its own total weight and the *current* `nSamples` (no positive insertion can have happened
+since the last compression when the backlog is empty). -/
+theorem reachable_ksize_n (sf : ScaleFn α) {mb : Nat} {ops : List (Op α)} {s : St α}
+    (h : run sf (new mb) ops = some s) :
+    (merge sf s).centroids = [] ∨
+      Greedy sf s.nSamples (sumCount (merge sf s).centroids) 0 (merge sf s).centroids :=
+  greedy_reachable sf h
+
+/-- `centroid_bound_of_scale`: for any scale function satisfying `ScaleOK` at the current sample
+count, a read sees fewer than `2·(f 1 − f 0) + 1` centroids (`⌊m/2⌋` disjoint adjacent pairs, each
+spanning more than 1 in k-space, fit into `f 1 − f 0`). -/
+theorem centroid_bound_of_scale (sf : ScaleFn α) {mb : Nat} {ops : List (Op α)} {s : St α}
+    (h : run sf (new mb) ops = some s) (hok : ScaleOK sf s.nSamples) :
+    ((nCentroids sf s).2 : α) < 2 * (sf.f 1 s.nSamples - sf.f 0 s.nSamples) + 1 := by
+  have hi := inv_merge sf (inv_reachable sf h)
+  have hpos : ∀ c ∈ (merge sf s).centroids, 0 < c.count := fun c hc => hi.pos c (by simp [hc])
+  exact scale_length_bound hok _ hpos (greedy_reachable sf h)
+
+/-- Sharper form: `2·⌊m/2⌋ < 2·(f 1 − f 0)` for `m ≥ 2` centroids. -/
+theorem centroid_bound_of_scale_pairs (sf : ScaleFn α) {mb : Nat} {ops : List (Op α)} {s : St α}
+    (h : run sf (new mb) ops = some s) (hok : ScaleOK sf s.nSamples) (h2 : 2 ≤ (nCentroids sf s).2) :
+    (2 * ((nCentroids sf s).2 / 2 : ℕ) : α) < 2 * (sf.f 1 s.nSamples - sf.f 0 s.nSamples) := by
+  have hi := inv_merge sf (inv_reachable sf h)
+  have hpos : ∀ c ∈ (merge sf s).centroids, 0 < c.count := fun c hc => hi.pos c (by simp [hc])
+  change 2 ≤ (merge sf s).centroids.length at h2
+  rcases greedy_reachable sf h with e | hg
+  · rw [e] at h2; simp at h2
+  · exact scale_pairs_bound hok _ hpos hg h2
+
+/-- `K0` satisfies `ScaleOK` for every `n` (`0 < δ`). -/
+theorem scaleOK_K0 {δ : α} (hδ : 0 < δ) (n : Nat) : ScaleOK (k0 δ) n := scaleOK_k0 hδ n
+
+/-- `centroid_bound_K0` re-derived from the general theorem (`2·(f 1 − f 0) = δ` for `K0`). -/
+theorem centroid_bound_K0_of_scale {δ : α} (hδ : 0 < δ) {mb : Nat} {ops : List (Op α)} {s : St α}
+    (h : run (k0 δ) (new mb) ops = some s) :
+    ((nCentroids (k0 δ) s).2 : α) < δ + 1 := by
+  have := centroid_bound_of_scale (k0 δ) h (scaleOK_k0 hδ _)
+  rwa [k0_span] at this
+
+/-! ### `K1` over `ℝ` -/
+
+/-- `K1` (with `Real.pi`, `Real.sin`, `Real.arcsin`) satisfies `ScaleOK` for every `n` (`0 < δ`). -/
+theorem scaleOK_K1 {δ : ℝ} (hδ : 0 < δ) (n : Nat) : ScaleOK (k1 δ) n := scaleOK_k1 hδ n
+
+/-- `centroid_bound_K1`: with `K1` and compression `δ`, over `ℝ`, a read sees fewer than `δ + 1`
+centroids after any history (`2·(f 1 − f 0) = δ/π · (arcsin 1 − arcsin (−1)) = δ`). -/
+theorem centroid_bound_K1 {δ : ℝ} (hδ : 0 < δ) {mb : Nat} {ops : List (Op ℝ)} {s : St ℝ}
+    (h : run (k1 δ) (new mb) ops = some s) :
+    ((nCentroids (k1 δ) s).2 : ℝ) < δ + 1 := by
+  have := centroid_bound_of_scale (k1 δ) h (scaleOK_k1 hδ _)
+  rwa [k1_span] at this
 
 end Pds.Props.C04
